@@ -53,6 +53,11 @@ claim('C18', 'proof',
  "trusted: Coq kernel, extraction, harness; SIGSEGV on the NULL section counts as terminating the process; where a decision depends on bytes a short C++-stream read left undetermined the model answers 'unknown' and any not-clean outcome is accepted",
  "DESIGN.md section 4, C18")
 
+claim('C09', 'proof',
+ "Coq theorems for every ring degree N>=1, every k, key, accumulator, TGSW rows and decomposition layout (congruences coefficient-wise mod 2^32): the phase computed by the wrapping C loops is b - sum_u s_u*a_u in the negacyclic ring; an accumulation step r + d*C acts linearly on phases (commutativity/distributivity of the ring); phase(extprod C acc) = sum_p dec_p(acc)*phase(C_p) for the accumulation order of tGswExternMulToTLwe / tGswFFTExternMulToTLwe; tied to the code at N=1024 (forced by the FFT processors) by comparing both variants (coefficient-domain API, FFT-domain key) per coefficient with the exact extracted model and with an independent wrap-around schoolbook expectation m*(accumulator rounded to l*Bgbit bits) for noiseless rows, m in {0,1,-1,X^j,small,binary}, k in {1,2}, layouts incl. l*Bgbit=32 and Bgbit in {1,2,16}; gadget additions exact; library-encrypted rows against the analytic worst-case bound with the row noise measured from the secret key; blind rotation and single CMux steps on generated keys for exponent vectors incl. 0 and 2N-1; FFT image of the key converted back within 1 unit",
+ "trusted: Coq kernel, extraction (fast driver), harness; the FFT transforms are not modelled: implementation and exact model agree within the measured FFT tolerance ((k+1)l*max(2,2^(Bgbit-8))+2 units; C10 measures the real figure); after the first CMux step accumulators are compared through their phases (a one-unit FFT difference can move a coefficient across a digit boundary of the next decomposition)",
+ "DESIGN.md section 4, C09")
+
 NA_REASON = "check not built yet in this revision (work in progress; DESIGN.md section 8 gives the order)"
 checks = []
 for p in props:
